@@ -68,6 +68,11 @@ pub fn cred_pairs(g: &mut Gen) -> Vec<(Vec<u8>, Vec<u8>)> {
         (long.clone(), crate::spec::HashAlg::Sha512.hash(&[&long])),
         (huge.clone(), crate::spec::HashAlg::Sha512.hash(&[&huge])),
         (vec![9], vec![10]),
+        // the same hash-block-sized segments in another order, or doubled (equal under any
+        // commutative / self-cancelling folding of a long identifier)
+        ([&long[..128], &huge[..128]].concat(), [&huge[..128], &long[..128]].concat()),
+        ([&long[..64], &huge[..64], &huge[64..128]].concat(), [&huge[..64], &long[..64], &huge[64..128]].concat()),
+        ([&long[..128], &huge[..128], &huge[..128]].concat(), long[..128].to_vec()),
     ]
 }
 
@@ -312,7 +317,7 @@ pub fn gen_world(seed: u64, idx: u64, s: &dyn SuiteOps, mode: usize) -> World {
 
 pub fn run(ctx: &Ctx) -> Report {
     let mut rep = Report::new(
-        "4 world modes per suite: (0) boundary-shifted splits of one string w into (ctx, id_u, id_s) at registration / server login / client login; (1) class triples over absent / explicit-default spelling / empty / short / near-miss identities incl. one-sided ones, and contexts absent/empty/ctx/ctx\\0/cty; (2) lengths 255/256/65535, identities of 65536/70000 bytes against the default and against their 65535-byte prefix (registration / server / client / both), and crafted twins that would collide under a 1-byte (mod 256) or missing length prefix; (3) 25 credential-identifier pairs (equal, prefix, last-byte, whitespace/NUL/case twins, 57/58, 64/65, 121/122, 200-byte and 70000-byte tails, long identifier vs its SHA-256/384/512 digest) at registration vs login. Model A decides accept/reject; non-trivial = world contains a predicted rejection; distinct = hash of (suite, op/outcome sequence)",
+        "4 world modes per suite: (0) boundary-shifted splits of one string w into (ctx, id_u, id_s) at registration / server login / client login; (1) class triples over absent / explicit-default spelling / empty / short / near-miss identities incl. one-sided ones, and contexts absent/empty/ctx/ctx\\0/cty; (2) lengths 255/256/65535, identities of 65536/70000 bytes against the default and against their 65535-byte prefix (registration / server / client / both), and crafted twins that would collide under a 1-byte (mod 256) or missing length prefix; (3) 28 credential-identifier pairs (equal, prefix, last-byte, whitespace/NUL/case twins, 57/58, 64/65, 121/122, 200-byte and 70000-byte tails, long identifier vs its SHA-256/384/512 digest, hash-block-sized segments permuted / doubled) at registration vs login. Model A decides accept/reject; non-trivial = world contains a predicted rejection; distinct = hash of (suite, op/outcome sequence)",
     );
     let mut suites: Vec<&'static dyn SuiteOps> = SIM_SUITES.to_vec();
     suites.extend(ID_SUITES.iter().step_by(ctx.pick(5, 2)));
